@@ -33,6 +33,7 @@ class BodyGen:
         self.consts = consts
         self.max_depth = max_depth
         self.base_known = base_known      # '. = X' is a skip only once the link base is set
+        self.after_label = None           # name of a label defined after the '.repeat' block, if bodies may use it
         self.feat = set()
 
     def lit(self, v):
@@ -54,6 +55,10 @@ class BodyGen:
         if c < 0.3:
             self.feat.add("dot")
             return "."
+        if c < 0.42 and self.after_label:
+            # a label located AFTER the block: its address depends on the length of the block
+            self.feat.add("after-label")
+            return self.after_label
         if c < 0.55 and self.consts:
             return r.choice(sorted(self.consts))
         if c < 0.6:
@@ -333,6 +338,8 @@ class RepeatCase:
         self.before = [n for n in ["a", "b", "cc", "n"] if r.random() < 0.6]
         self.after = [n for n in self.consts if n not in self.before]
         g = BodyGen(r, self.consts, max_depth=3, base_known=(self.base_mode == "first"))
+        if r.random() < 0.5:
+            g.after_label = "tail"
         self.body = g.body(1, 4)
         self.count_text, self.n = g.count()
         if n_override is not None:
@@ -515,9 +522,11 @@ def depth_of(block):
     return d
 
 
-def env_coq(consts, start):
+def env_coq(consts, start, tail=None):
     """string -> option Z as a Coq function term"""
     t = "None"
+    if tail is not None:
+        t = "if String.eqb n \"tail\" then Some %s else %s" % (C.zlit(tail), t)
     for n, v in sorted(consts.items()):
         t = "if String.eqb n %s then Some %s else %s" % (C.coq_str(n), C.zlit(v), t)
     t = "if String.eqb n \"bgn\" then Some %s else %s" % (C.zlit(start), t)
